@@ -646,6 +646,7 @@ func c19RunHistory(rep *verifkit.Report, rng *rand.Rand, pool *c19Pool, sample b
 	// state, to recognise verdicts that only an expired entry explains.
 	prevDB := (*c19DB)(nil)
 	asked := map[string]time.Time{}
+	touched, checkedBefore := map[string]bool{}, map[string]int{}
 	small := cacheSize != 0 && cacheSize < 65536
 
 	witness := func(d c19Dom) func(extra map[string]any) any {
@@ -687,6 +688,7 @@ func c19RunHistory(rep *verifkit.Report, rng *rand.Rand, pool *c19Pool, sample b
 				rep.Event("database_replaced_after_full_expiry")
 			}
 			asked = map[string]time.Time{}
+			touched, checkedBefore = map[string]bool{}, map[string]int{}
 			trace = append(trace, c19Step{Op: op, AdvanceS: d.Seconds(), DB: cur})
 			rep.Event("clock_advances_past_expiry")
 			continue
@@ -783,8 +785,20 @@ func c19RunHistory(rep *verifkit.Report, rng *rand.Rand, pool *c19Pool, sample b
 			asked[l] = now
 		}
 
-		nontrivial := want != "clean" || sharing > 0 || disIn != "" || source == "no-question" || source == "partial-question"
-		rep.Eval(nontrivial, fmt.Sprintf("%s|%v|%s|%s|%d|%s", d.Name, db.Names, source, want, cacheSize, cacheTime))
+		// Counting is kept independent of what the product did (its cache
+		// evicts in map-iteration order): a cache interaction is expected
+		// when a sub-domain of an earlier check since the last full expiry
+		// has the same prefix.
+		revisit := false
+		for _, a := range d.A {
+			p := c19Hash(a)[:4]
+			revisit = revisit || touched[p]
+			touched[p] = true
+		}
+		nth := checkedBefore[d.Name]
+		checkedBefore[d.Name]++
+		nontrivial := want != "clean" || sharing > 0 || disIn != "" || revisit
+		rep.Eval(nontrivial, fmt.Sprintf("%s|%v|%v|%d|%s|%d|%s", d.Name, db.Names, revisit, nth, want, cacheSize, cacheTime))
 		rep.Class(fmt.Sprintf("labels:%d", d.NLabels))
 		if d.Private {
 			rep.Class("suffix:private")
@@ -877,7 +891,7 @@ func c19RunHistory(rep *verifkit.Report, rng *rand.Rand, pool *c19Pool, sample b
 					d.Name, gotS, want, len(trace), source),
 				wit(map[string]any{"expected": want, "observed": gotS, "decided_by_subdomain": by,
 					"how_answered": source, "database_lists_disallowed_subdomain_of_kind": disIn,
-					"other_listed_hashes_sharing_a_prefix": sharing,
+					"other_listed_hashes_sharing_a_prefix":                                      sharing,
 					"observed_equals_verdict_under_replaced_database_whose_entries_all_expired": explainedByExpired}))
 		}
 	}
@@ -898,7 +912,7 @@ func c19RunHistory(rep *verifkit.Report, rng *rand.Rand, pool *c19Pool, sample b
 
 func TestVerifC19(t *testing.T) {
 	rep := verifkit.New("C19", "lookup",
-		"case = one Check(host) inside a history of 5-40 checks/clock advances sharing one Checker (cache size 10 B .. unlimited, cache time 5 s .. 1 h) against an in-memory lookup service with a database of full hashes; every request the service receives is compared with an independent enumeration of allowed sub-domains, every verdict with a fresh evaluation of the database in force; non-trivial = the database lists a hash that equals or shares its 2-byte prefix with a sub-domain of the host (or a disallowed sub-domain), or the check was answered wholly/partly from the cache; distinct by (host, database, how answered, cache size, cache time)")
+		"case = one Check(host) inside a history of 5-40 checks/clock advances sharing one Checker (cache size 10 B .. unlimited, cache time 5 s .. 1 h) against an in-memory lookup service with a database of full hashes; every request the service receives is compared with an independent enumeration of allowed sub-domains, every verdict with a fresh evaluation of the database in force; non-trivial = the database lists a hash that equals or shares its 2-byte prefix with a sub-domain of the host (or lists a sub-domain that must not count), or an earlier check since the last full expiry touched one of its prefixes (cache interaction); distinct by (host, database, revisit, n-th check of the host since expiry, cache size, cache time)")
 	defer func() {
 		if err := rep.Write(); err != nil {
 			t.Fatal(err)
